@@ -295,10 +295,10 @@ func c19(x *mon.Ctx) {
 
 	// ---- policy fields: config x flag
 	type pf struct {
-		name            string
-		good, bad       string // flag values (hex / number / list)
-		malformedFlag   string
-		setCfg          func(c *ccpb.Config, kind string)
+		name          string
+		good, bad     string // flag values (hex / number / list)
+		malformedFlag string
+		setCfg        func(c *ccpb.Config, kind string)
 	}
 	hx := hex.EncodeToString
 	flip := func(b []byte) []byte { c := append([]byte{}, b...); c[len(c)-1] ^= 1; return c }
